@@ -49,6 +49,9 @@ def fixRange (start stop : Int) (len : Int) : Int × Int :=
   if start > stop ∨ start ≥ len then (-1, -1)
   else (start, min stop (len - 1) + 1)
 
+/-- `floor(num/den + 1/2)` (round half up, as Redis' `(ttl_ms + 500) / 1000`), `den > 0` -/
+def roundHalfUp (num : Int) (den : Int) : Int := (2 * num + den) / (2 * den)
+
 /-- Python `round(num/den)` (half to even), `den > 0` -/
 def roundHalfEven (num : Int) (den : Int) : Int :=
   let q := num / den      -- floor division (Int.div rounds toward -inf for positive den via `/` = `Int.div`? we use emod below)
